@@ -231,7 +231,10 @@ def refute(chk, build, obs, ground_sizes, replay, t0, second_pass=None):
         if done:
             o.meta["refuted"] = True
             continue
-        if o.status == "sat":
+        if o.status == "sat" and o.meta.get("abstracted"):
+            # the query generalises the obligation (terms replaced by fresh symbols under proved hints): a model is only a candidate
+            rest.append(o)
+        elif o.status == "sat":
             # definite refutation (quantifier-free / structural) but no concrete failing input
             chk.violation(o.id, key, f"obligation refuted ({o.backend}): {o.detail if o.detail else o.meta}", None, kind="refuted",
                           obligation=o.id, solver=str(o.detail), reproduced=False)
